@@ -5,6 +5,8 @@
 -/
 import SparseV.Lemmas.Join
 import SparseV.Model.Reduce
+import SparseV.Model.Gcxs
+import SparseV.Props.C08
 namespace SparseV
 
 /-! ### `groupRuns` -/
@@ -607,5 +609,165 @@ theorem rowReduce_sel_get (op : RedOp) (hsup : op.super? = none) (le : Int → I
     exact ⟨fun c _ => by rw [hall c]; exact hrefl _, ⟨0, hC, hall 0⟩⟩
 
 end COO
+
+/-! ### lifting the 2-D core to `reduceCore` -/
+
+theorem prod_append : ∀ (a b : List Nat), prod (a ++ b) = prod a * prod b
+  | [], b => by simp [prod]
+  | d :: a, b => by simp only [List.cons_append, prod, prod_append a b, Nat.mul_assoc]
+
+theorem ravel_append : ∀ (j ks : List Nat), j.length = ks.length → ∀ (u as : List Nat),
+    ravel (j ++ u) (ks ++ as) = ravel j ks * prod as + ravel u as
+  | [], [], _, u, as => by simp [ravel]
+  | i :: is, d :: ds, h, u, as => by
+    simp only [List.cons_append, ravel, ravel_append is ds (by simpa using h) u as, prod_append,
+      Nat.add_mul, Nat.mul_assoc, Nat.add_assoc]
+  | [], _ :: _, h, _, _ => by simp at h
+  | _ :: _, [], h, _, _ => by simp at h
+
+namespace COO
+
+theorem gather_range_self (s : List Nat) : gather s (List.range s.length) = s := by
+  apply List.ext_getElem
+  · simp [gather]
+  · intro i h1 h2
+    simp [gather, List.getD_eq_getElem?_getD, h2]
+
+/-- gathering along a list of axes that covers every position is injective on indices of that rank -/
+theorem gather_inj (p : List Nat) (n : Nat) (hcov : ∀ k, k < n → k ∈ p) (a b : List Nat)
+    (ha : a.length = n) (hb : b.length = n) (h : gather a p = gather b p) : a = b := by
+  apply List.ext_getElem (by rw [ha, hb])
+  intro k h1 h2
+  obtain ⟨m, hm, hpk⟩ := List.getElem_of_mem (hcov k (ha ▸ h1))
+  have := congrArg (fun l => List.getD l m 0) h
+  simp only [gather_getD _ _ _ hm] at this
+  have hpm : p.getD m 0 = k := by simp [List.getD_eq_getElem?_getD, List.getElem?_eq_getElem hm, hpk]
+  rw [hpm] at this
+  simpa [List.getD_eq_getElem?_getD, List.getElem?_eq_getElem h1, List.getElem?_eq_getElem h2] using this
+
+/-- kept axes followed by the reduced axes: a permutation of all axes -/
+theorem kept_axes_perm (n : Nat) (axes : List Nat) (hnd : axes.Nodup) (hr : ∀ a ∈ axes, a < n) :
+    (((List.range n).filter fun a => !axes.contains a) ++ axes).Perm (List.range n) := by
+  have h1 : axes.Perm ((List.range n).filter fun a => axes.contains a) := by
+    rw [List.perm_ext_iff_of_nodup hnd (List.Nodup.sublist List.filter_sublist List.nodup_range)]
+    intro a
+    simp only [List.mem_filter, List.mem_range, List.contains_iff_mem]
+    exact ⟨fun h => ⟨hr a h, h⟩, fun h => h.2⟩
+  have h2 := List.filter_append_perm (fun a => axes.contains a) (List.range n)
+  refine List.Perm.trans ?_ h2
+  refine List.Perm.trans List.perm_append_comm ?_
+  exact List.Perm.append h1 (by
+    have : (fun a => !axes.contains a) = fun a => !(fun a => axes.contains a) a := rfl
+    rw [this])
+
+
+variable {α : Type}
+
+/-- `transpose` by a permutation of a canonical array: shape, fill, well-formedness, canonical order -/
+theorem transposeCore_facts (x : COO α) (p : List Nat) (hp : p.Perm (List.range x.shape.length))
+    (hwf : x.WF) (hs : SortedLin x.shape x.entries) :
+    (x.transposeCore p).shape = gather x.shape p ∧ (x.transposeCore p).fill = x.fill ∧
+    (x.transposeCore p).WF ∧ SortedLin (x.transposeCore p).shape (x.transposeCore p).entries := by
+  unfold transposeCore
+  by_cases hid : p = List.range x.shape.length
+  · simp only [hid, if_true, gather_range_self, true_and]
+    exact ⟨hwf, hs⟩
+  · simp only [hid, if_false, true_and]
+    have hmem : ∀ a ∈ p, a < x.shape.length := fun a ha => List.mem_range.mp (hp.mem_iff.mp ha)
+    have hcov : ∀ k, k < x.shape.length → k ∈ p := fun k hk => hp.mem_iff.mpr (List.mem_range.mpr hk)
+    have hwfm : ∀ e ∈ mapIdx (fun i => gather i p) x.entries, InB e.1 (gather x.shape p) := by
+      intro e he
+      obtain ⟨e0, he0, rfl⟩ := List.mem_map.mp he
+      exact InB_gather _ _ (hwf e0 he0) p hmem
+    have hwf' : ∀ e ∈ sortEntries (gather x.shape p) (mapIdx (fun i => gather i p) x.entries),
+        InB e.1 (gather x.shape p) := fun e he => hwfm e (mem_sortEntries.mp he)
+    refine ⟨hwf', ?_⟩
+    apply sortedLin_of_le_nodup _ _ (sortEntries_sortedLe _ _) _ hwf'
+    apply nodup_sortEntries
+    have hnd : (keysOf x.entries).Nodup := by
+      unfold SortedLin lin at hs
+      unfold keysOf
+      rw [List.pairwise_map] at hs
+      rw [List.nodup_iff_pairwise_ne, List.pairwise_map]
+      exact hs.imp (fun h heq => by rw [heq] at h; omega)
+    apply nodup_mapIdx _ _ hnd
+    intro a ha b hb hab
+    obtain ⟨ea, hea, rfl⟩ := mem_keysOf.mp ha
+    obtain ⟨eb, heb, rfl⟩ := mem_keysOf.mp hb
+    exact gather_inj p x.shape.length hcov _ _ (InB_length (hwf ea hea)) (InB_length (hwf eb heb)) hab
+
+/-- `reshape`: shape, fill, well-formedness -/
+theorem reshapeCore_facts (x : COO α) (s : List Nat) (hwf : x.WF) (hsize : prod x.shape = prod s) :
+    (x.reshapeCore s).shape = s ∧ (x.reshapeCore s).fill = x.fill ∧ (x.reshapeCore s).WF := by
+  refine ⟨?_, ?_, ?_⟩
+  · unfold reshapeCore; by_cases h : x.shape = s <;> simp [h]
+  · unfold reshapeCore; by_cases h : x.shape = s <;> simp [h]
+  · unfold reshapeCore
+    by_cases h : x.shape = s
+    · simp only [h, if_true]; exact hwf
+    · simp only [h, if_false]
+      intro e he
+      obtain ⟨e0, he0, rfl⟩ := List.mem_map.mp he
+      exact unravel_InB s _ (hsize ▸ ravel_lt (hwf e0 he0))
+
+/-- `reshape` keeps the canonical order (its `sorted=True` promise) -/
+theorem reshapeCore_sorted (x : COO α) (s : List Nat) (hwf : x.WF) (hsize : prod x.shape = prod s)
+    (hs : SortedLin x.shape x.entries) : SortedLin s (x.reshapeCore s).entries := by
+  have hlin := C08.reshape_preserves_linear x s hwf hsize
+  unfold SortedLin lin at hs ⊢
+  rw [hlin]; exact hs
+
+/-- the 1-D result of the row reduction stores only row numbers of the operand -/
+theorem rowReduce_add_wf (a : COO Int) (R C : Nat) (hshape : a.shape = [R, C]) (hwf : a.WF)
+    (hs : SortedLin a.shape a.entries) (fill : Int) : (rowReduce .add a fill).WF := by
+  have hwf' : ∀ e ∈ a.entries, InB e.1 [R, C] := fun e he => hshape ▸ hwf e he
+  have hs' : SortedLin [R, C] a.entries := hshape ▸ hs
+  rw [rowReduce_add_eq]
+  intro e he
+  simp only [pruneEntries, List.mem_filter, List.mem_map] at he
+  obtain ⟨⟨g, hg, rfl⟩, _⟩ := he
+  obtain ⟨_, s2, _⟩ := groupRuns_spec_aux (· + ·) _ (rowList_sorted a.entries R C hwf' hs')
+  obtain ⟨q, hq, hqg⟩ := List.mem_map.mp ((s2 g.1).mp (List.mem_map.mpr ⟨g, hg, rfl⟩))
+  obtain ⟨e0, he0, rfl⟩ := List.mem_map.mp hq
+  obtain ⟨r, c, hk, hr, _⟩ := InB2 (hwf' e0 he0)
+  simp only [hk, List.getD_cons_zero] at hqg
+  simp only [hshape, List.getD_cons_zero, InB_cons, InB_nil, and_true]
+  omega
+
+end COO
+
+theorem range_mul (d P : Nat) :
+    List.range (d * P) = (List.range d).flatMap fun i => (List.range P).map fun m => i * P + m := by
+  induction d with
+  | zero => simp
+  | succ d ih =>
+    rw [Nat.succ_mul, List.range_add, ih, List.range_succ, List.flatMap_append]
+    simp
+
+/-- `allIdx` lists the indices of a shape in row-major order: the `n`-th one is `unravel n` -/
+theorem allIdx_eq_map_unravel : ∀ (s : List Nat), allIdx s = (List.range (prod s)).map fun n => unravel n s
+  | [] => by simp [allIdx, prod, unravel]
+  | d :: ds => by
+    simp only [allIdx, prod, range_mul, List.map_flatMap, List.map_map, allIdx_eq_map_unravel ds]
+    congr 1
+    funext i
+    apply List.map_congr_left
+    intro m hm
+    have hm' : m < prod ds := List.mem_range.mp hm
+    have hp : 0 < prod ds := by omega
+    have h1 : (i * prod ds + m) / prod ds = i := by
+      rw [Nat.add_comm, Nat.add_mul_div_right _ _ hp, Nat.div_eq_of_lt hm', Nat.zero_add]
+    have h2 : (i * prod ds + m) % prod ds = m := by
+      rw [Nat.add_comm, Nat.add_mul_mod_self_right, Nat.mod_eq_of_lt hm']
+    simp only [Function.comp, unravel, h1, h2]
+
+
+/-- reading `gather v (invPerm p)` at axis `p[m]` gives component `m` of `v` -/
+theorem gather_invPerm_getD (p : List Nat) (hnd : p.Nodup) (hlt : ∀ a ∈ p, a < p.length) (v : List Nat)
+    (m : Nat) (hm : m < p.length) : (COO.gather v (invPerm p)).getD (p[m]) 0 = v.getD m 0 := by
+  have hk : p[m] < p.length := hlt _ (List.getElem_mem hm)
+  rw [COO.gather_getD _ _ _ (by simpa [invPerm] using hk)]
+  unfold invPerm
+  rw [getD_map_range _ _ _ hk, idxOf_getElem_of_nodup p m hm hnd]
 
 end SparseV
